@@ -27,6 +27,7 @@ func C06(c *Ctx) {
 	r.Rule("C06-d", "with LeftRecursion: under Memoize a left-recursive rule is never routed through the rule memo (a memoised first failure would be replayed on every growth step), and expression memoisation is off inside such rules")
 	r.Rule("C06-e", "an expression is answered from the memo table only if what its evaluation does is determined by the node and the offset: a kind whose evaluator stores into the label scope of its caller (a labelled expression binds its label there) or runs a code block on that scope without evaluating an operand of its own first (the code predicates: the labels they read were bound by an enclosing sequence that may have started elsewhere) is excluded from the lookup in parseExprWrap")
 	r.Rule("C06-f", "errList.add appends every error it is given: which errors are reported does not depend on how many were recorded before (re-evaluations add duplicates that only dedupe removes, so a cap or filter in add makes the result depend on Memoize)")
+	r.Rule("C06-i", "no method of the error list drops a recorded error (stores into the list append; the de-duplication runs once, when the list is returned): an error dropped after a lookahead or a failed attempt is reported again only if its code block runs again, which a memo hit prevents")
 	r.Rule("C06-h", "a memo entry that is found is the answer: in parseExprWrap and parseRuleMemoize every path on which the lookup succeeded returns without evaluating, and every path that evaluates after a lookup assumes exactly that the lookup missed - no further condition decides whether a hit is used (a hit ignored under some condition re-evaluates the expression at that offset every time: the bound of one evaluation per expression and offset is lost)")
 	r.Rule("C06-w", "configuration flags are assigned only by their option function (and newParser defaults): memoize, debug, recover, allowInvalidUTF8, maxExprCnt, entrypoint")
 
@@ -54,6 +55,7 @@ func C06(c *Ctx) {
 		c06e(c, a.V)
 		c06h(c, a.V)
 		errListKeepsAll(c, a.V, "C06-f")
+		errListMethodsKeepErrors(c, a.V, "C06-i")
 	}
 	r.Min("non-optimized variants", 8, n)
 }
